@@ -215,6 +215,12 @@ func main() {
 					spec = &eng.FSpec{Kind: eng.FTyped, Tuple: cands[(c+phase+k)%len(cands)]}
 				}
 				pe := panelEntry{spec: spec, tf: d.BuildTyped(spec)}
+				if k == 2 {
+					// the third one is registered: the first query of a cached filter is concurrent, too
+					pe.tf.Register()
+					pe.cached = true
+					res.Counters["registered-collision-filters"]++
+				}
 				expect := m.Select(spec, nil)
 				for gi := 0; gi < G; gi++ {
 					s := step{pi: len(panel), spec: spec, tf: pe.tf, expect: expect, mode: (gi + k) % 5}
